@@ -3,6 +3,7 @@
 package gtree
 
 import (
+	"sync/atomic"
 	"errors"
 	"io"
 )
@@ -17,9 +18,30 @@ type verifReader struct {
 	err   error
 	buf   []byte
 	init  bool
+	// pos: rows handed out so far (under the engine the Scanner stub keeps it up to date; natively Read hands out
+	// one row per call when oneByOne is set, so that "how much was read after the call returned" can be measured)
+	pos      int64
+	oneByOne bool
+	next     int
 }
 
 func (r *verifReader) Read(p []byte) (int, error) {
+	if r.oneByOne {
+		if len(r.buf) == 0 {
+			if r.next >= len(r.lines) {
+				if r.err != nil {
+					return 0, r.err
+				}
+				return 0, io.EOF
+			}
+			r.buf = append([]byte(r.lines[r.next]), '\n')
+			r.next++
+			atomic.AddInt64(&r.pos, 1)
+		}
+		n := copy(p, r.buf)
+		r.buf = r.buf[n:]
+		return n, nil
+	}
 	if !r.init {
 		r.init = true
 		for _, l := range r.lines {
@@ -37,6 +59,8 @@ func (r *verifReader) Read(p []byte) (int, error) {
 	r.buf = r.buf[n:]
 	return n, nil
 }
+
+func (r *verifReader) rowsRead() int64 { return atomic.LoadInt64(&r.pos) }
 
 var errVerifWrite = errors.New("verif: write refused")
 var errVerifRead = errors.New("verif: read refused")
